@@ -249,8 +249,8 @@ fn hand_shaped(ctx: &mut Ctx) {
 /// two labels with goto and branch, prints, array, two built-in calls, a function call, return), as the
 /// body of the entry method and as the body of a function called with one argument: control-flow and
 /// value-discard shapes no compiler would emit (test-last loops, jumps into the middle, values left on
-/// the stack at return, code after return). Judged by M; sequences that pop an empty operand stack,
-/// define a label twice or do not finish within 2 000 steps are outside "conforming" and are skipped.
+/// the stack at return, code after return). Judged by M; sequences that pop an empty operand stack, name
+/// a label they do not define, define a label twice or do not finish within 2 000 steps are outside "conforming" and are skipped.
 fn instruction_sequences(ctx: &mut Ctx) {
     let k = if ctx.quick() { 4 } else { 6 };
     let s = |x: &str| Const::Str(x.into());
@@ -282,6 +282,10 @@ fn instruction_sequences(ctx: &mut Ctx) {
                     consts.push(Const::Method { name: 0, arity: 0, locals: 0, code: vec![Ins::Lit(7), Ins::Call(1, 1), Ins::Print(5, 1), Ins::Return] });
                     Prog { consts, globals: vec![13, 14, 15], entry: 16 }
                 };
+                // a jump that names a label the method does not define: whether such a file is valid at all is not
+                // documented (a loader may legitimately refuse it up front), so it is not judged here
+                let dangling = code.iter().any(|i| match i { Ins::Goto(l) | Ins::Branch(l) => !code.contains(&Ins::Label(*l)), _ => false });
+                if dangling { ctx.count("programs", 1); ctx.count("unspecified", 1); ctx.count("unspecified:jump-to-a-label-not-defined", 1); continue }
                 let pre = refvm::run(&x, 2_000);
                 if pre.status == Status::Unspec || (pre.status == Status::Fail && pre.reason.contains("operand stack empty")) {
                     ctx.count("programs", 1); ctx.count("unspecified", 1);
